@@ -53,7 +53,7 @@ DataOf(typ, slot, e) ==
    comm |-> e.comm, pos |-> e.pos, bits |-> IF e.kind = "att" THEN {e.pos} ELSE SeqToSet(e.bits), size |-> e.size]
 TReset == IsEvent("Reset") /\ l = 1 /\ UNCHANGED <<vars, Obs>>
 TSub == /\ IsEvent("Sub") /\ Quiet /\ AtTick
-        /\ Named("SubmitWhileIdle", Ev.in \/ run.pc = "idle")
+        /\ (Ev.in \/ run.pc = "idle")
         /\ LET ds == [i \in DOMAIN Ev.ents |-> DataOf(Ev.typ, Ev.slot, Ev.ents[i])] IN
            sub' = [typ |-> Ev.typ, slot |-> Ev.slot, t |-> Ev.t, ds |-> ds, i |-> 1,
                    bad |-> \E i \in DOMAIN ds : SubmitEffect(ds[i]) = "error"]
@@ -72,18 +72,18 @@ TSubRet == /\ IsEvent("SubRet") /\ sub # NoSub /\ sub.i > Len(sub.ds) /\ AtTick
 AttOf(a) == [fam |-> FamOf(a.ver), r |-> a.r, aslot |-> a.aslot, dindex |-> a.dindex, cbits |-> a.cbits,
              bits |-> SeqToSet(a.bits), len |-> a.len]
 TDut == /\ IsEvent("Dut") /\ Quiet /\ AtTick
-        /\ Named("UnexpectedDutiesQuery", run.pc = "duties")
+        /\ run.pc = "duties"
         /\ Named("DutiesEpoch", Ev.epoch = run.slot \div conf.spe)
         /\ Named("DutiesIndices", SeqToSet(Ev.idx) = run.idx /\ Len(Ev.idx) = run.nidx)
         /\ Named("DutiesEndpoint", Ev.via = IF Cfg.dcache THEN "api" ELSE "cache")
         /\ Duties([err |-> Ev.ans.err, ds |-> Ev.ans.ds]) /\ UNCHANGED Obs
 TBlk == /\ IsEvent("Blk") /\ Quiet /\ AtTick
-        /\ Named("UnexpectedBlockQuery", run.pc = "block")
+        /\ run.pc = "block"
         /\ Named("BlockSlot", Ev.slot = run.slot)
         /\ Named("BlockEndpoint", Ev.q = IF conf.flag THEN "atts" ELSE "block")
         /\ Block([kind |-> Ev.ans.kind, atts |-> [i \in DOMAIN Ev.ans.atts |-> AttOf(Ev.ans.atts[i])]]) /\ UNCHANGED Obs
 TCom == /\ IsEvent("Com") /\ Quiet /\ AtTick
-        /\ Named("UnexpectedCommitteesQuery", run.pc = "comms")
+        /\ run.pc = "comms"
         /\ Named("CommitteesState", Ev.state = Head(run.need))
         /\ Comm([err |-> Ev.ans.err, sizes |-> Ev.ans.sizes]) /\ UNCHANGED Obs
 
@@ -117,8 +117,7 @@ TLog == Observe("Log")
 TTrk == Observe("Trk")
 (* a report with nothing to observe (cannot arise: every report has a record) would block the trace; drop it *)
 TEnd == /\ IsEvent("End") /\ AtTick
-        /\ Named("ReportsObserved", pend = {} /\ cur = NoCur /\ sub = NoSub)
-        /\ Named("LoopIdle", run.pc = "idle")
+        /\ Quiet /\ run.pc = "idle"
         /\ UNCHANGED <<vars, Obs>>
 
 (* ---- silent steps of the loop: never while a submission from inside a beacon-node call is still to come ---- *)
@@ -127,9 +126,11 @@ TSilent == /\ Silent /\ Quiet /\ ~HookNext /\ l > 1
            /\ \/ (CheckOff \/ CheckOn \/ Trim) /\ pend' = out'
               \/ l <= TLen /\ tick < TickOf(Ev.t) /\ Tick /\ pend' = pend
            /\ UNCHANGED <<cur, sub>>
+\* a name recorded at an earlier position says nothing about the furthest one: forget it when the trace advances
+HWReset == IF l > TLCGet(1)[tr] THEN TLCSet(2, [TLCGet(2) EXCEPT ![tr] = "-"]) ELSE TRUE
 TraceNext == TReset \/ TSub \/ TSubStep \/ TSubRet \/ TDut \/ TBlk \/ TCom \/ TLog \/ TTrk \/ TEnd \/ TSilent
 TraceSpec == TraceInit /\ [][TraceNext]_tvars
 Mark == /\ CheckInv("ReportsRight", Strict => ReportsRight) /\ CheckInv("Prompt", Strict => Prompt)
         /\ CheckInv("Structural", Structural)
-        /\ HWMark
+        /\ HWReset /\ HWMark
 ====
